@@ -775,8 +775,51 @@ def check_lowpass_func(rep, prog):
     rep.ob('R-FLOW', 'lowpass_func metadata', okfo, 'folded models are refused; folding status and extrapolation abscissa are carried over', m.rel, fn.lineno, what='the corrected spectrum keeps the metadata of the model')
 
 
+def check_shared_structures(rep, prog):
+    """the genotype partitions handed around in the simulated regime are the objects stored in Numerics' partition cache: the functions
+    that combine them must build new lists (alias / effect analysis with element-level aliasing through itertools.product, zip, list,
+    tuple: an in-place `+=`, `*=`, .extend on an element of the argument changes the cached object)"""
+    from sa import effects
+    from sa.flow import Engine
+    m = prog.mod(LP)
+
+    class Eff(effects.EffAnalysis):
+        def call(self, e, s):
+            fn_ = dotted(e.func) or ''
+            if fn_ in ('itertools.product', 'itertools.chain', 'itertools.combinations', 'itertools.permutations', 'itertools.zip_longest', 'zip', 'list', 'tuple', 'sorted', 'reversed', 'iter',
+                       'itertools.chain.from_iterable', 'enumerate'):
+                held = frozenset()
+                for a in e.args:
+                    v = self.ev(a.value if isinstance(a, ast.Starred) else a, s)
+                    held = held | v.al | v.held
+                return effects.Val(frozenset(), '?', frozenset(), held)
+            return super().call(e, s)
+    for q in ('flatten_nested_list',):
+        fn = prog.func(LP, q)
+        rep.saw_function(m.rel + ':' + q)
+        an = Eff(prog, m, fn, {}, {})
+        an.summaries = _Default()
+        try:
+            Engine(an, max_iter=6).run_function(fn, an.initial())
+            mut = sorted(an.mut)
+            det = 'no element of the argument is updated in place' if not mut else 'line %d: %s (argument %s)' % (an.mut[mut[0]][0], an.mut[mut[0]][1], mut[0])
+        except Exception as e:        # the analysis itself failing is not a verdict
+            raise AnalysisError('%s: effect analysis failed: %s' % (q, e))
+        rep.ob('R-PURE', '%s elements' % q, not mut, det, m.rel, an.mut[mut[0]][0] if mut else fn.lineno,
+               what='combined partitions are new objects: the sub-lists of the argument (cached partitions) are not extended or scaled in place')
+
+
+class _Default(dict):
+    def __missing__(self, k):
+        from sa.effects import Summary
+        v = Summary()
+        self[k] = v
+        return v
+
+
 def run(rep, prog, tier):
     check_partitions(rep, prog)
+    check_shared_structures(rep, prog)
     check_new_memos(rep, prog)
     check_projection(rep, prog)
     check_calling_error(rep, prog)
